@@ -76,7 +76,7 @@ PROPS = {
     "C06": {
         "lean": ["AriVerif.Props.C06"],
         "gen": ["Layouts"],
-        "streams": [s_wire.stream_requests, s_wire.stream_lines_e2e, s_wire.stream_meta],
+        "streams": [s_wire.stream_requests, s_wire.stream_decode_pure, s_wire.stream_lines_e2e, s_wire.stream_meta],
         "trusted": [KERNEL, HARNESS, "Spec/Ari.lean (the conforming ARI request encoder) is hand-written from the protocol, "
                     "cross-checked with request literals of the repository's tests (examples in Props/C06.lean)",
                     "the request layouts (Requests.schemas) and the adapter wiring (Meta.metaExec) are hand-written tables tied by the "
